@@ -65,4 +65,8 @@ H1 harmless: rename outputBuilder -> sb, reorder the atoms of the not-executable
                                                              the guard atoms are sorted, locals are not facts)
 Fix phase: with d6adec5 / 3a89ce0 / b087314 in /repo, reverting d6adec5 on a scratch copy gives exit 1,
 `VIOLATION … violation-single-output-sequence-accepts-zero-outputs.json`, 21 disagreements, guard fact and skeleton flipped.
+Round-3 seed (guard `len(dep.DeclaredOutputs()) > 1` instead of `len(dep.Outputs()) > 1`, /tmp/seedout3/C37/patch.diff): exit 1,
+`VIOLATION … violation-singular-location-expands-to-several-paths.json` — command `cp $(location //path/to:dep) $OUT` of //path/to:t,
+dependency with the named outputs a.c, a.h expands to "path/to/a.c path/to/a.h"; facts multiGuardAccessor = "DeclaredOutputs"
+(C37_accessors_ok, qf_guard fail), the extractor now reads split guard chains and `v := dep.Outputs()` locals instead of exiting 3.
 """
